@@ -29,7 +29,8 @@ RULE = ('(a) transactions built from generated descriptors (input/output counts 
         'and block-size +-1 to larger than the block; truncated files must raise RuntimeError. '
         'Non-trivial (a) = a count or script length needs a multi-byte varint; (b) = some tx '
         'straddles a chunk boundary and some tx is larger than the chunk. distinct = distinct '
-        'descriptor/chunk combinations.')
+        'descriptor/chunk combinations.' 
+        '(c) coverage-guided (Atheris/libFuzzer, pbt/fuzz.py): arbitrary byte strings (even shards start from four valid transactions, odd shards from an empty corpus) against the harness\'s own slicing reader of the wire format: read_tx returns a transaction iff the bytes hold a complete one, with the same fields and end offset, the hash is the double SHA-256 of the bytes consumed, serialize() reads back equal (and is byte-identical when every varint is canonical); an incomplete transaction whose declared lengths are realistic (< 4 GiB) raises one of the exceptions iter_txs catches; every fourth shard steers the block generator of (b) by coverage instead. Non-trivial (c) = the bytes hold a complete transaction with at least one input or output.')
 ASSUMPTIONS = ['hashlib.sha256', 'chunk_size >= 9 (room for the widest tx-count varint), the '
                "reader's implicit precondition"]
 BUDGET_S = {'quick': 100, 'thorough': 3000}
